@@ -337,7 +337,7 @@ def m_split(ex, st, args, kwargs, node):
             s2 = st.fork().assume(z3.Not(has))
             out.append((s2, ex.new_list(s2, [s])))
         return out
-    return [(st, VUnk("str.split"))]
+    return ex.havoc_call(st, "str.split", list(args[1:]), node)      # tagged: a VC failing on this path is `unknown`
 
 
 def m_ljust(ex, st, args, kwargs, node):
@@ -348,7 +348,7 @@ def m_ljust(ex, st, args, kwargs, node):
         if c is not None and k is not None:
             return [(st, VStr(c.ljust(k, "0")))]
         return [(st, VStr(LJUST0(s.t, n)))]
-    return [(st, VUnk("str.ljust"))]
+    return ex.havoc_call(st, "str.ljust", list(args[1:]), node)
 
 
 SPLIT_ROOT = z3.Function("splitext_root", S, S)
@@ -502,12 +502,21 @@ def cursor(lc):
     return v
 
 
-def acc_list(lc):
-    name = lc.st.ghost.get("acc")
-    v = lc.st.lookup(name) if name else None
-    if not isinstance(v, VRef):
-        raise ops.Unsupported("no accumulator list in this loop")
+def page_url(lc):
+    """URL of the page the current iteration of the page loop works on (the cursor's value when the iteration began);
+    independent of the frame an item loop runs in (it may sit in an extracted helper)."""
+    v = lc.st.ghost.get("page")
+    if not isinstance(v, VStr):
+        raise ops.Unsupported("item loop outside a page loop")
     return v
+
+
+def acc_list(lc):
+    """The list the loop accumulates into, by identity (a helper may know it under another name)."""
+    ref = lc.st.ghost.get("acc")
+    if ref is None or ref not in lc.st.heap:
+        raise ops.Unsupported("no accumulator list in this loop")
+    return VRef(ref)
 
 
 def ghost_y(st):
@@ -562,6 +571,38 @@ class C18Executor(Executor):
                 return [(st, VInt(idx))]
         if name == "endswith" and len(args) == 1 and isinstance(args[0], VStr) and args[0].const() and len(args[0].const()) == 1:
             return [(st, VBool(z3.simplify(struct_endswith(self, st, str_parts(s.t), args[0].const()))))]
+        if name in ("endswith", "startswith") and len(args) == 1 and isinstance(args[0], (VSeq, VSymBag)):
+            fn = z3.SuffixOf if name == "endswith" else z3.PrefixOf
+            a, j = args[0], z3.Int(fresh_name("m"))
+            e = a.elem(j)
+            if not isinstance(e, VStr):
+                return self.havoc_call(st, f"str.{name}", list(args), node)
+            keep = a.keep(j) if isinstance(a, VSymBag) else z3.BoolVal(True)
+            return [(st, VBool(z3.Exists([j], z3.And(j >= 0, j < a.length, keep, fn(e.t, s.t)))))]
+        if name == "partition" and len(args) == 1 and isinstance(args[0], VStr) and args[0].const():
+            sepc = args[0].const()
+            idx = struct_index_of(self, st, s.t, sepc)
+            if idx is not None:
+                if z3.is_int_value(idx) and idx.as_long() == -1:
+                    return [(st, VTuple([s, VStr(""), VStr("")]))]
+                head = struct_substr(self, st, s.t, z3.IntVal(0), idx)
+                tail = struct_substr(self, st, s.t, z3.simplify(idx + len(sepc)), None)
+                if head is not None and tail is not None:
+                    return [(st, VTuple([VStr(head), VStr(sepc), VStr(tail)]))]
+            sep = args[0].t
+            has = z3.Contains(s.t, sep)
+            i0 = z3.IndexOf(s.t, sep, 0)
+            out = []
+            if self.feasible(st.pc, has):
+                s1 = st.fork().assume(has)
+                out.append((s1, VTuple([VStr(z3.SubString(s.t, 0, i0)), VStr(sepc),
+                                        VStr(z3.SubString(s.t, i0 + len(sepc), z3.Length(s.t) - i0 - len(sepc)))])))
+            if self.feasible(st.pc, z3.Not(has)):
+                out.append((st.fork().assume(z3.Not(has)), VTuple([s, VStr(""), VStr("")])))
+            return out
+        if name in ("split", "rsplit", "splitlines", "partition", "rpartition") and s.const() is None \
+                and f"str.{name}" not in self.reg.ext_models:
+            return self.havoc_call(st, f"str.{name}", list(args), node)      # tagged: a VC failing on this path is `unknown`
         if name == "encode":
             return self.str_method_encode(st, s)
         return super().str_method(st, s, name, args, kwargs, node)
@@ -710,8 +751,6 @@ class C18Executor(Executor):
         c = self.contract
         if c is None or not any(isinstance(k, str) for k in c.loops):
             return super().loop_spec(node)
-        if self.inline_depth > 0:
-            return None
         it = self._iter_stack[-1] if getattr(self, "_iter_stack", None) and not isinstance(node, _ast.While) else None
         st = self._iter_state[-1] if getattr(self, "_iter_state", None) and not isinstance(node, _ast.While) else None
         role = self.loop_role(node, it, st)
@@ -722,17 +761,31 @@ class C18Executor(Executor):
         self.__dict__.setdefault("_iter_state", []).append(st)
         try:
             spec = self.loop_spec(s)
+            if spec is None or spec.inv is None:
+                # a symbolic loop without an invariant is cut with `True` (everything it assigns is forgotten): an
+                # over-approximation, so a VC that fails afterwards is `unknown`, never a counterexample by itself
+                st.assume(z3.Bool(f"__havoc__@{self.loc(s)} loop over a symbolic sequence without an invariant"[:120]))
             if spec is not None and self.loop_role(s, it, st) == "for-records":
                 st.assume(take_all())     # proved lemma (lemmas(): take-all.*), added only where a loop walks a record sequence
             if getattr(spec, "acc_sort", None) is not None:
                 acc = self.accumulator(st, s.body)
                 if acc is None:
                     self.unsupported(s, "loop with an accumulator invariant: no unique list the body appends to")
-                st.ghost["acc"] = acc
+                st.ghost["acc"] = st.lookup(acc).ref
             return super().symbolic_for(s, st, it)
         finally:
             self._iter_stack.pop()
             self._iter_state.pop()
+
+    def _exec_stmt(self, s, st):
+        # a Python exception inside the engine / the pack's models on an unforeseen code shape is a gap of the model, not a
+        # fact about the code: the function leaves the verifiable subset (obligations `unknown`, native replayer decides)
+        try:
+            return super()._exec_stmt(s, st)
+        except (AttributeError, TypeError, KeyError, IndexError, z3.Z3Exception) as e:
+            import traceback
+            where = traceback.extract_tb(e.__traceback__)[-1]
+            raise ops.Unsupported(f"{self.loc(s)} model does not cover this shape: {type(e).__name__}: {e} @ {where.name}:{where.lineno}")
 
     def add_vc(self, kind, label, pc, goal, note="", loc=""):
         g = goal.t if isinstance(goal, VBool) else (z3.BoolVal(goal) if isinstance(goal, bool) else goal)
@@ -750,6 +803,11 @@ class C18Executor(Executor):
     def accumulator(self, st, body):
         """Name of the one local list the loop body mutates (None if there is not exactly one)."""
         names = []
+        cur = st.ghost.get("acc")
+        if cur is not None:
+            for name, v in st.frame.env.items():
+                if isinstance(v, VRef) and v.ref == cur and cur in self.mutated_refs(body, st):
+                    return name
         fr = st.frame
         for name, v in fr.env.items():
             if isinstance(v, VRef) and v.ref in st.heap and st.heap[v.ref].kind in ("list", "seqlist") and v.ref in self.mutated_refs(body, st):
@@ -796,7 +854,63 @@ class C18Executor(Executor):
         else:
             st.ghost["Y_unknown"] = True
 
+    def generator_helper(self, st, call):
+        """`yield from helper(...)` where helper is a generator of this module without a contract: (fnode, self value)."""
+        if not isinstance(call, _ast.Call):
+            return None
+        f = call.func
+        if isinstance(f, _ast.Attribute) and isinstance(f.value, _ast.Name) and f.value.id == "self":
+            obj = st.lookup("self")
+            if not (isinstance(obj, VRef) and st.obj(obj.ref).kind == "obj"):
+                return None
+            q = f"{st.obj(obj.ref).cls}.{f.attr}"
+            if self.reg.get(f"{self.module.rel}::{q}") is not None:
+                return None
+            fnode = self.module.functions.get(q)
+            static = fnode is not None and any(_ast.unparse(d) == "staticmethod" for d in fnode.decorator_list)
+            self_val = None if static else obj
+        elif isinstance(f, _ast.Name) and st.lookup(f.id) is None and f.id in self.module.functions \
+                and self.reg.get(f"{self.module.rel}::{f.id}") is None:
+            fnode, self_val = self.module.functions[f.id], None
+        else:
+            return None
+        if fnode is None or any(fnode is x for x in self.cur_fn_stack):
+            return None
+        if not any(isinstance(x, (_ast.Yield, _ast.YieldFrom)) for x in _ast.walk(fnode)):
+            return None
+        return fnode, self_val
+
+    def yield_from_helper(self, n, st, fnode, self_val):
+        """PEP 380: `yield from g(...)` runs g's body as part of this generator: what it yields is yielded here."""
+        from pyvc.state import Frame
+        out = []
+        call = n.value
+        for (s1, args) in self.ev_list(call.args, st):
+            for (s2, kwvals) in self.ev_list([k.value for k in call.keywords], s1):
+                if any(k.arg is None for k in call.keywords):
+                    self.unsupported(n, "**kwargs call")
+                env = self.bind_params(fnode, args, {k.arg: v for k, v in zip(call.keywords, kwvals)}, call, self_val=self_val)
+                s2.frames.append(Frame(env, None, fnode))
+                self.cur_fn_stack.append(fnode)
+                try:
+                    res = self.exec_block(fnode.body, s2)
+                finally:
+                    self.cur_fn_stack.pop()
+                for o in res:
+                    o.st.frames.pop()
+                    if o.kind in ("fall", "return"):
+                        out.append((o.st, NONE))
+                    elif o.kind == "raise":
+                        self.raise_in(o.st, o.val)
+                    else:
+                        self.unsupported(n, f"{o.kind} leaving a generator helper")
+        return out
+
     def e_YieldFrom(self, n, st):
+        if self.inline_depth == 0:
+            h = self.generator_helper(st, n.value)
+            if h is not None:
+                return self.yield_from_helper(n, st, *h)
         if self.inline_depth == 0 and self.single_symbolic_comp(n.value, st):
             y = _ast.Expr(value=_ast.Yield(value=n.value.elt))
             loop = self.comp_as_loop(n.value, y)
@@ -853,7 +967,7 @@ class C18Executor(Executor):
             name = self.accumulator(st, body)
             if name is None:
                 self.unsupported(body[0] if body else None, "loop with an accumulator invariant: no unique list the body appends to")
-            st.ghost["acc"] = name
+            st.ghost["acc"] = st.lookup(name).ref
             keep[st.lookup(name).ref] = (name, acc_sort)
         # the client object: callee contracts' frames only touch `_access_token` (token_frame); a loop body without
         # direct attribute stores therefore leaves every other field as it is
@@ -873,6 +987,14 @@ class C18Executor(Executor):
 
     def list_method(self, st, obj, name, args, kwargs, node):
         o = st.obj(obj.ref)
+        if name == "extend" and len(args) == 1 and isinstance(args[0], VSeq) and isinstance(args[0].tag, tuple) and args[0].tag[0] == "seq" \
+                and o.kind in ("list", "seqlist"):
+            # extending by the value of a call under contract (a generator's yielded sequence / a returned list)
+            term = args[0].tag[1]
+            cur = seq_of(st, obj, term.sort().basis())
+            if cur is not None:
+                st.heap[obj.ref] = HeapObj("seqlist", z3.Concat(cur, term), SEQ_ELEM_KIND[term.sort().basis().name()], o.fresh)
+                return [(st, NONE)]
         if o.kind == "seqlist":
             if name == "append" and isinstance(args[0], VExt) and args[0].sort == o.cls:
                 st.wobj(obj.ref).data = z3.Concat(o.data, z3.Unit(args[0].t))
@@ -896,6 +1018,15 @@ class C18Executor(Executor):
         spec = self.loop_spec(s)
         if not isinstance(spec, CLoop):
             return super().s_While(s, st)
+        # `while True: if not X: break; ...`  ==  `while X: ...`
+        if isinstance(s.test, _ast.Constant) and s.test.value is True and s.body and isinstance(s.body[0], _ast.If) \
+                and isinstance(s.body[0].test, _ast.UnaryOp) and isinstance(s.body[0].test.op, _ast.Not) \
+                and isinstance(s.body[0].test.operand, _ast.Name) and not s.body[0].orelse \
+                and len(s.body[0].body) == 1 and isinstance(s.body[0].body[0], _ast.Break) and not s.orelse:
+            s2 = _ast.While(test=s.body[0].test.operand, body=s.body[1:] or [_ast.Pass()], orelse=[])
+            _ast.copy_location(s2, s)
+            _ast.fix_missing_locations(s2)
+            s = s2
         label = spec.label or f"L{s.lineno}"
         if not isinstance(s.test, _ast.Name):
             self.unsupported(s, "page loop whose test is not a plain cursor variable")
@@ -904,7 +1035,7 @@ class C18Executor(Executor):
             acc = self.accumulator(st, s.body)
             if acc is None:
                 self.unsupported(s, "page loop: no unique list the body appends to")
-            st.ghost["acc"] = acc
+            st.ghost["acc"] = st.lookup(acc).ref
         entry = st.fork()
         outs = []
         self.add_vc("inv-init", label, st.pc, spec.inv(LoopCtx(self, st, z3.IntVal(0), entry)), loc=self.loc(s))
@@ -915,6 +1046,7 @@ class C18Executor(Executor):
         body_st.ghost["k"] = k
         body_st.assume(self._b(spec.inv(LoopCtx(self, body_st, k, entry))))
         after0 = body_st.fork()
+        body_st.ghost["page"] = body_st.lookup(s.test.id)
         for (s2, g) in self.ev(s.test, body_st):
             for (s3, b) in self.fork_truth(s2, g):
                 if not b:
@@ -1989,7 +2121,7 @@ def part_c(reg):
     def lip_inner(lc):
         url, pp = fn_arg(lc, "url").t, fn_arg(lc, "parent_path").t
         k = lc.st.ghost["k"]
-        return ghost_y(lc.st) == z3.Concat(FILES(url, pp, k), PF(cursor(lc).t, pp, lc.i))
+        return ghost_y(lc.st) == z3.Concat(FILES(url, pp, k), PF(page_url(lc).t, pp, lc.i))
 
     out.append(FnContract(
         target=f"{CLIENT}::SharePointRestClient._list_items_paginated",
@@ -2030,7 +2162,7 @@ def part_c(reg):
         fs = seq_of(lc.st, acc_list(lc), JsonS)
         if fs is None:
             raise ops.Unsupported("accumulated list is not a list of JSON items")
-        return z3.And(fs == z3.Concat(FOLD(url, k), PFOLD(cursor(lc).t, lc.i)), AF(fs))
+        return z3.And(fs == z3.Concat(FOLD(url, k), PFOLD(page_url(lc).t, lc.i)), AF(fs))
 
     def gf_post(c):
         fs = seq_of(c.st, c.result, JsonS)
@@ -2444,11 +2576,42 @@ def caches_policy(repo, tier):
                         gen_cond=cond_facts(checks))
         res = [r for r in sf.run(fn) if isinstance(r.node, (ast.Assign, ast.AnnAssign))]
         bad = [r.desc for r in res if not r.ok]
+        if not res or bad:
+            # the guard / store is not in the textual shape the dominance analysis knows (inverted test, store moved into a
+            # helper, ...): decide semantically -- the function's contract says exactly this (every failure leaves the cache
+            # unchanged; on success the cache equals the checked value returned), with helpers executed in place
+            why = semantic_cache_rule(repo, meth)
+            if why is not None:
+                obls.append(ground_obligation(f"C18/client.py::{cls}.{meth}/typestate#{attr}-assigned-only-after-successful-response", True,
+                                              why, "client.py", kind="typestate", backend="z3"))
+                continue
         G(f"{cls}.{meth}/typestate#{attr}-assigned-only-after-successful-response", bool(res) and not bad,
           "; ".join(bad) or f"{len(res)} fact(s) established at the store", definite=False)   # guard recognised by text only:
         # the semantic version is the contract of the function (raises => cache unchanged; ensures => cached == checked value)
         fns.append(dict(m.fn_info(f"{cls}.{meth}"), obligations=1))
     return {"obligations": obls, "functions": []}
+
+
+def semantic_cache_rule(repo, meth):
+    """-> reason if every `raises` / `ensures` obligation of the method's contract is proved on the current source, else None."""
+    from pyvc.contracts import Registry
+    from pyvc.exctypes import Universe
+    from pyvc import verify
+    try:
+        reg = Registry()
+        cs = contracts(reg)
+        for c in cs:
+            reg.add(c)
+        c = [c for c in cs if c.target.endswith(f"::SharePointRestClient.{meth}")][0]
+        rep = verify.run_contract("C18", c, reg, Universe(repo), repo=repo, executor_cls=EXECUTOR, executor_kw=EXECUTOR_KW.get(c.target))
+    except Exception:  # noqa
+        return None
+    if rep.error or rep.out_of_subset:
+        return None
+    need = [o for o in rep.obligations if o["kind"] in ("raises", "ensures")]
+    if not need or any(o["status"] != "proved" for o in need) or not any(o["kind"] == "raises" for o in need):
+        return None
+    return f"implied by the contract of {meth} on the current source: {len(need)} raises/ensures obligations proved (cache unchanged on every failure, equal to the checked value on success)"
 
 
 def known_findings(kf, violations, repo, tier):
